@@ -21,6 +21,7 @@ Definition oracle_case (k : case) : bool :=
           if 2 <=? Z.of_nat (length (sent_msgs script)) then true else md_eqb t (all_trailers script)
       | Lts c => match c with Stream.Sched _ _ _ p _ => negb p | Stream.GoChecked _ _ ok => ok end
       | UnaryStatus _ _ _ _ _ _ _ h t => h && t
+      | StreamStatus _ _ _ _ _ _ _ _ _ _ _ h t => h && t
       | Checked _ _ ok => ok
       end
   end.
